@@ -3,10 +3,10 @@ from fractions import Fraction
 from tools import common as C, wire, oracle as O
 from tools.props import c02 as A
 
-LEAN_MODULES = ["SCP.C03", "SCP.VarTermination"]
+LEAN_MODULES = ["SCP.C03", "SCP.VarTermination", "SCP.VarInvariant"]
 THEOREMS = ["SCP.C03." + t for t in """get_insert use_sees_latest assign_stores assign_frame exec_noassign value_not_reference
 self_reference registerVar_frame parseLine_frame exec_frame failed_line_frame findLocation_some_iff pickBest_spec""".split()] + \
-    ["SCP.VarTermination.varStep_lowers", "SCP.VarTermination.varLoop_stable", "SCP.VarTermination.updateTokenVariables_stable"]
+    ["SCP.VarTermination.varStep_lowers", "SCP.VarTermination.varLoop_stable", "SCP.VarTermination.updateTokenVariables_stable", "SCP.VarInvariant.execAst_names", "SCP.VarInvariant.parseLine_names", "SCP.VarInvariant.evalInfos_names", "SCP.VarInvariant.lineOKb_iff", "SCP.VarInvariant.session_names", "SCP.VarInvariant.session_var_loop_terminates"]
 RULE = ("straight-line programs (3-12 lines) over a pool of colliding names (one-word, multi-word, prefixes of each other, names "
         "equal modulo blanks, names containing a number, names that are month or zone words (no ordinary word in the line), random letter case): assignments of arithmetic over literals and earlier "
         "names, re-assignments, self-references, copies, negated uses, values of other kinds (money, percent, duration, date, time, "
